@@ -72,6 +72,120 @@ def probe_timeconv(f):
         return None
 
 
+def _ref_join(fk, pk, tgt, dflt):
+    """independent reference of shared.join_numpy (valid keys: pk unique, every fk >= 0 present)"""
+    import numpy as np
+    pos = {int(k): i for i, k in enumerate(pk)}
+    out = [tgt[pos[int(k)]] if int(k) in pos else dflt for k in fk]
+    return np.array(out, dtype=np.asarray(tgt).dtype)
+
+
+def probe_join_form(raw, args):
+    """skip_vectorization rules of the shape  join_numpy(fk, pk, tgt, value_if_foreign_key_is_missing=K)
+    optionally compared (== / !=) with another argument: recognised syntactically in the source of
+    the rule and then VALIDATED behaviourally against an independent reference on random arrays.
+    Returns a kind dict or None."""
+    import ast
+    import inspect
+    import random
+    import textwrap
+
+    import numpy as np
+    try:
+        tree = ast.parse(textwrap.dedent(inspect.getsource(raw)))
+    except Exception:  # noqa: BLE001
+        return None
+    fn = next((n for n in ast.walk(tree) if isinstance(n, ast.FunctionDef)), None)
+    if fn is None:
+        return None
+    body = [st for st in fn.body if not (isinstance(st, ast.Expr) and isinstance(getattr(st, "value", None), ast.Constant))]
+
+    def as_join(call):
+        if not (isinstance(call, ast.Call) and isinstance(call.func, ast.Name) and call.func.id in ("join_numpy", "join")):
+            return None
+        names = ["foreign_key", "primary_key", "target", "value_if_foreign_key_is_missing"]
+        got = dict(zip(names, call.args))
+        for kw in call.keywords:
+            got[kw.arg] = kw.value
+        if set(got) != set(names):
+            return None
+        a = [got[n] for n in names[:3]]
+        if not all(isinstance(x, ast.Name) and x.id in args for x in a) or not isinstance(got[names[3]], (ast.Constant, ast.UnaryOp)):
+            return None
+        try:
+            dflt = ast.literal_eval(got[names[3]])
+        except Exception:  # noqa: BLE001
+            return None
+        return [x.id for x in a] + [dflt]
+
+    form = None
+    if len(body) == 1 and isinstance(body[0], ast.Return):
+        j = as_join(body[0].value)
+        if j:
+            form = dict(k="join", fk=j[0], pk=j[1], tgt=j[2], dflt=j[3], cmp=None)
+    elif (len(body) == 2 and isinstance(body[0], ast.Assign) and len(body[0].targets) == 1 and isinstance(body[0].targets[0], ast.Name)
+          and isinstance(body[1], ast.Return) and isinstance(body[1].value, ast.Compare) and len(body[1].value.ops) == 1):
+        j = as_join(body[0].value)
+        x = body[0].targets[0].id
+        c = body[1].value
+        sides = [c.left, c.comparators[0]]
+        if j and all(isinstance(sd, ast.Name) for sd in sides) and isinstance(c.ops[0], (ast.Eq, ast.NotEq)):
+            ids = [sd.id for sd in sides]
+            if x in ids:
+                other = ids[1 - ids.index(x)]
+                if other in args:
+                    form = dict(k="join", fk=j[0], pk=j[1], tgt=j[2], dflt=j[3], cmp=["ne" if isinstance(c.ops[0], ast.NotEq) else "eq", other])
+    def validate(form):
+        return _validate_join_form(raw, args, form)
+
+    if form is None:
+        # no syntactic match: behavioural classification among  tgt ==/!= join(fk, pk, tgt, -1)
+        import itertools
+        if len(args) == 3:
+            for fk, pk, tgt in itertools.permutations(args):
+                for op in ("ne", "eq"):
+                    cand = dict(k="join", fk=fk, pk=pk, tgt=tgt, dflt=-1, cmp=[op, tgt])
+                    if validate(cand):
+                        return cand
+        return None
+    return form if validate(form) else None
+
+
+def _validate_join_form(raw, args, form):
+    import random
+
+    import numpy as np
+    rnd = random.Random(7)
+    for trial in range(12):
+        n = rnd.randrange(1, 9)
+        pk = rnd.sample(range(0, 40), n)
+        fk = [rnd.choice(pk + [-1]) for _ in range(n)]
+        cols = {}
+        for a in args:
+            if a == form["pk"]:
+                cols[a] = np.array(pk, dtype=np.int64)
+            elif a == form["fk"]:
+                cols[a] = np.array(fk, dtype=np.int64)
+            elif isinstance(form["dflt"], bool):
+                cols[a] = np.array([rnd.random() < 0.5 for _ in range(n)], dtype=bool)
+            elif isinstance(form["dflt"], float):
+                cols[a] = np.array([round(rnd.uniform(0, 500), 2) for _ in range(n)], dtype=np.float64)
+            else:
+                cols[a] = np.array([rnd.randrange(0, 6) for _ in range(n)], dtype=np.int64)
+        try:
+            got = np.asarray(raw(**{a: cols[a] for a in args}))
+        except Exception:  # noqa: BLE001
+            return False
+        ref = _ref_join(cols[form["fk"]], cols[form["pk"]], cols[form["tgt"]], form["dflt"])
+        if form["cmp"]:
+            ref = (ref == cols[form["cmp"][1]])
+            if form["cmp"][0] == "ne":
+                ref = ~ref
+        if got.dtype != ref.dtype or got.shape != ref.shape or not np.array_equal(got, ref):
+            return False
+    return True
+
+
 KNOWN_FACTORS = {}
 for a, fa in {"y": Fraction(1), "m": Fraction(12), "w": Fraction(36525, 700), "d": Fraction(36525, 100)}.items():
     for b, fb in {"y": Fraction(1), "m": Fraction(12), "w": Fraction(36525, 700), "d": Fraction(36525, 100)}.items():
@@ -114,6 +228,11 @@ def dump_date(o: int, cfg):
             kind = dict(k="rule", pyname=getattr(raw, "__name__", name), module=getattr(raw, "__module__", ""),
                         skipvec=bool(info.get("skip_vectorization", False)),
                         round=info.get("params_key_for_rounding"))
+            if kind["skipvec"] and not kind["round"] and not pgroups:
+                jf = probe_join_form(raw, args)
+                if jf:
+                    jf.update(pyname=kind["pyname"], module=kind["module"])
+                    kind = jf
         elif name in tc:
             fac = probe_timeconv(f)
             kind = dict(k="timeconv", factor=None if fac is None else [fac.numerator, fac.denominator])
@@ -169,6 +288,12 @@ def coq_node(n):
     elif k["k"] == "timeconv":
         fac = k.get("factor") or [0, 1]
         kind = f"(KTimeConv ({fac[0]})%Z {fac[1]}%positive)"
+    elif k["k"] == "join":
+        d = k["dflt"]
+        dv = ("(VBool " + ("true" if d else "false") + ")") if isinstance(d, bool) else \
+             (f"(VFloat (XFin (qfrac ({Fraction(repr(d)).numerator}) {Fraction(repr(d)).denominator})))" if isinstance(d, float) else f"(VInt ({int(d)}))")
+        cmp = "None" if not k["cmp"] else f"(Some ({'true' if k['cmp'][0] == 'ne' else 'false'}, {cstr(k['cmp'][1])}))"
+        kind = f"(KJoin {cstr(k['fk'])} {cstr(k['pk'])} {cstr(k['tgt'])} {dv} {cmp})"
     else:
         kind = "KGrouping"
     return (f"{{| d_name := {cstr(n['name'])}; d_args := {clist([cstr(a) for a in n['args']])}; "
@@ -196,7 +321,7 @@ def main():
     head = [
         "(* GENERATED by tools/dagdump.py from the real loader — do not edit *)",
         "From Coq Require Import ZArith Bool String List.",
-        "From GettsimModel Require Import Dag.",
+        "From GettsimModel Require Import Num Val Dag.",
         "Import ListNotations.",
         "Open Scope string_scope.",
         "",
